@@ -166,7 +166,10 @@ pub fn prop(tier: Tier, _seed: u64) -> Prop {
     );
 
     // ---- huge ratios
-    let huge: Vec<(u32, u32, u32, u32)> = vec![(1, 1, 4097, 1), (4097, 1, 1, 1), (65537, 1, 3, 1), (1, 65537, 1, 3), (3, 2, 300, 7), (255, 3, 2, 256), (1, 4097, 2, 1)];
+    let huge: Vec<(u32, u32, u32, u32)> = vec![(1, 1, 4097, 1), (4097, 1, 1, 1), (65537, 1, 3, 1), (1, 65537, 1, 3), (3, 2, 300, 7), (255, 3, 2, 256), (1, 4097, 2, 1),
+        // many destination lines with coprime sizes: an accumulated or fixed-point source position drifts
+        // by up to (lines x step error); after a few hundred lines it crosses a pixel boundary
+        (2, 1001, 2, 300), (1001, 2, 300, 2), (3, 997, 2, 512), (1, 4099, 1, 1000), (1, 300, 1, 1001), (1000, 1, 999, 1), (2, 65521, 1, 4093)];
     let dims3 = vec![huge.len() as u64, 6];
     let (d3, h3, b3) = (dims3.clone(), huge.clone(), bes.clone());
     p.spaces.push(
@@ -186,7 +189,7 @@ pub fn prop(tier: Tier, _seed: u64) -> Prop {
         .isolated(),
     );
 
-    p.rule = "source sizes (1..S)^2 x one destination axis varying over 1..D (the other fixed) x the full CROP1 x CROP1 alphabet (integer, fractional, sub-pixel, flush-left and flush-right boxes down to a width of n*2^-52) with rotating pixel types; the full (w_in,h_in,w_out,h_out) product up to F^4 x CROP1^2 x all 13 pixel types; huge ratios (1<->4097, 65537->3). Source containers: ImageRef and CroppedImage (dynamic entry), TypedImageRef (specialised row stepping) and TypedCroppedImage (generic row stepping) through the typed entry; all buffers end at a guard page and each case runs in an isolated child. Oracle: every destination pixel is byte-identical to the source pixel at floor(left+(x+1/2)*cw/dw), floor(top+(y+1/2)*ch/dh); either neighbour when the coordinate is within (n_out+4)*2^-51*extent of an integer".into();
+    p.rule = "source sizes (1..S)^2 x one destination axis varying over 1..D (the other fixed) x the full CROP1 x CROP1 alphabet (integer, fractional, sub-pixel, flush-left and flush-right boxes down to a width of n*2^-52) with rotating pixel types; the full (w_in,h_in,w_out,h_out) product up to F^4 x CROP1^2 x all 13 pixel types; huge ratios (1<->4097, 65537->3) and long coprime pairs (1001->300, 997->512, 4099->1000, 300->1001, 1000->999, 65521->4093) on both axes. Source containers: ImageRef and CroppedImage (dynamic entry), TypedImageRef (specialised row stepping) and TypedCroppedImage (generic row stepping) through the typed entry; all buffers end at a guard page and each case runs in an isolated child. Oracle: every destination pixel is byte-identical to the source pixel at floor(left+(x+1/2)*cw/dw), floor(top+(y+1/2)*ch/dh); either neighbour when the coordinate is within (n_out+4)*2^-51*extent of an integer".into();
     p.bounds = json!({"S": smax, "D": dmax, "F": full});
     p.assumptions = vec!["tags are unique byte patterns per pixel (for U8 at most 256 pixels), so a wrong source pixel is always visible".into()];
     p
